@@ -288,7 +288,7 @@ def check_config(cfg, ops, tmp, ls):
     root = logging.getLogger()
     for step, op in enumerate(ops):
         kind = op[0]
-        if kind in ("call", "again"):
+        if kind in ("call", "again", "startup"):
             i = op[1] % len(cfg)
             sec, fac = cfg[i], factories[i]
             if fac is None:
@@ -301,6 +301,8 @@ def check_config(cfg, ops, tmp, ls):
             missing = [h for h in sec["handlers"] if h["path"] == "MISSINGDIR" and not os.path.isdir(os.path.dirname(h["path_text"]))
                        and (h.get("delay") or "").lower() not in ("yes", "true", "on")]
             try:
+                if kind == "startup":
+                    fac.startup()          # "make sure we've instantiated the logger"
                 lg = fac()
             except Exception as e:  # noqa
                 if missing and isinstance(e, OSError):
@@ -613,9 +615,79 @@ def gen_ops(rng, n, retry=False):
         return [("call", k), ("mkdir", 0), ("call", k), ("again", k), ("reopenFiles", 0), ("closeFiles", 0)]
     ops = [("call", rng.randrange(4))]
     for _ in range(rng.randint(0, 5)):
-        k = rng.choice(["call", "again", "reopen", "reopenFiles", "closeFiles", "drop", "call"])
+        k = rng.choice(["call", "again", "reopen", "reopenFiles", "closeFiles", "drop", "call", "startup"])
         ops.append((k, rng.randrange(4)))
     return ops
+
+
+def check_configure(cfg, ls):
+    """ZConfig.configureLoggers(text): every <logger> section of the text is loaded and its factory
+    called once -- the loggers end up as check_config establishes for factories called by hand."""
+    import ZConfig
+    out = []
+    secs = [s for s in cfg if s["type"] == "logger"]
+    for sec in secs:
+        for i, h in enumerate(sec["handlers"]):
+            h["path_text"] = os.path.join(ls.tmp, "cl-%s-%d.log" % (sec["name"], i)) if h["path"] == "FILE" else h["path"]
+    text = config_text(secs)
+    verdict = "accept"
+    for sec in secs:
+        if sec.get("level") is not None and ref_level(sec["level"]) is None:
+            verdict = "reject"
+        if sec.get("propagate") is not None and sec["propagate"].lower() not in ("yes", "no", "true", "false", "on", "off"):
+            verdict = "reject"
+        for h in sec["handlers"]:
+            r = ref_handler(h)
+            if r == "reject" or (h.get("level") is not None and ref_level(h["level"]) is None):
+                verdict = "reject"
+            elif r == "unspec" and verdict != "reject":
+                verdict = "unspec"
+            if h.get("format") is not None or (h.get("style") or "classic") != "classic":
+                if verdict == "accept":
+                    verdict = "format-dependent"
+    before = {s["name"]: list(logging.getLogger(s["name"]).handlers) for s in secs}
+    try:
+        ZConfig.configureLoggers(text)
+    except ZConfig.ConfigurationError:
+        if verdict == "accept":
+            out.append(("configureLoggers-rejects-acceptable-text", text[:300]))
+        return "rejected", out
+    except Exception as e:  # noqa
+        if _raised_in_logger_component(e) and verdict != "accept":
+            return "rejected", out
+        out.append(("configureLoggers-raises:%s" % type(e).__name__, "%s ; %r" % (str(e)[:200], text[:300])))
+        return "rejected", out
+    if verdict == "reject":
+        out.append(("configureLoggers-accepts-what-the-statement-refuses", text[:300]))
+        return "accepted", out
+    if verdict == "unspec":
+        return "unspec", out
+    for sec in secs:
+        lg = logging.getLogger(sec["name"])
+        want_level = ref_level(sec["level"]) if sec.get("level") is not None else 20
+        if lg.level != want_level:
+            out.append(("configureLoggers:wrong-logger-level", "%r gives %r" % (sec.get("level"), lg.level)))
+        wantp = True if sec.get("propagate") is None else sec["propagate"].lower() in ("yes", "true", "on")
+        if bool(lg.propagate) != wantp:
+            out.append(("configureLoggers:wrong-propagate", "%r gives %r" % (sec.get("propagate"), lg.propagate)))
+        new = [h for h in lg.handlers if h not in before[sec["name"]]]
+        nwant = len(sec["handlers"]) or 1
+        if len(new) != nwant:
+            out.append(("configureLoggers:wrong-number-of-handlers", "%d handlers for %d sections" % (len(new), len(sec["handlers"]))))
+        else:
+            for h, spec in zip(new, sec["handlers"]):
+                wl = ref_level(spec["level"]) if spec.get("level") is not None else 0
+                if h.level != wl:
+                    out.append(("configureLoggers:wrong-handler-level", "%r gives %r" % (spec.get("level"), h.level)))
+    return "accepted", out
+
+
+def run_configure(cfg):
+    with LogState() as ls:
+        try:
+            return check_configure(cfg, ls)
+        finally:
+            gc.collect()
 
 
 def run_case(cfg, ops):
@@ -628,7 +700,10 @@ def run_case(cfg, ops):
 
 def evaluate(case):
     try:
-        _, fl = run_case(case["config"], [tuple(o) for o in case["ops"]])
+        if case.get("configure"):
+            _, fl = run_configure(case["config"])
+        else:
+            _, fl = run_case(case["config"], [tuple(o) for o in case["ops"]])
     except (KeyError, IndexError, TypeError, AttributeError, ValueError, ZeroDivisionError):
         return []
     return [failure(sig, case, d) for sig, d in fl]
@@ -792,6 +867,17 @@ def run_shard(spec):
                 res.sample({"text": config_text_safe(cfg), "ops": ops})
         for sig, d in fl:
             res.fail(sig, {"config": cfg, "ops": [list(o) for o in ops]}, d)
+        if i % 3 == 0 and any(s["type"] == "logger" for s in cfg):
+            import copy
+            cfg2 = copy.deepcopy(cfg)
+            for s in cfg2:
+                if s["type"] == "logger":
+                    s["name"] = s["name"] + ".cl"
+            res.evaluations += 1
+            st2, fl2 = run_configure(cfg2)
+            counters["configureLoggers:" + st2] += 1
+            for sig, d in fl2:
+                res.fail(sig, {"config": cfg2, "ops": [], "configure": True}, d)
     res.counters.update(counters)
     return res
 
